@@ -9,6 +9,8 @@ import (
 	"math/big"
 	"strconv"
 	"strings"
+
+	"github.com/wader/gojq"
 )
 
 // parseTok is the inverse of tokOf for the grammar in pool.go (used by the worker for values
@@ -176,12 +178,31 @@ func parseV(s string, p poolT) (any, string, error) {
 				return nil, "", err
 			}
 		}
+		// bin:<hex>/<nbits>/<unit>@<s>:<e> = the binary .[s:e] of bin:<hex>/<nbits>/<unit> (made by
+		// Binary.JQValueSlice itself): a binary whose range does not start at bit 0
+		slice := ""
+		if at := strings.IndexByte(ps[2], '@'); at >= 0 {
+			ps[2], slice = ps[2][:at], ps[2][at+1:]
+		}
 		nbits, err1 := strconv.Atoi(ps[1])
 		unit, err2 := strconv.Atoi(ps[2])
 		if err1 != nil || err2 != nil || nbits < 0 || nbits > len(b)*8 || unit <= 0 {
 			return nil, "", fmt.Errorf("bad bin token %q", t)
 		}
-		return mkBinary(b, nbits, unit), rest, nil
+		bin := mkBinary(b, nbits, unit)
+		if slice != "" {
+			se := strings.Split(slice, ":")
+			if len(se) != 2 {
+				return nil, "", fmt.Errorf("bad bin slice %q", t)
+			}
+			sa, err3 := strconv.Atoi(se[0])
+			sb, err4 := strconv.Atoi(se[1])
+			if err3 != nil || err4 != nil || sa < 0 || sb < sa || sb*unit > nbits {
+				return nil, "", fmt.Errorf("bad bin slice %q", t)
+			}
+			bin = bin.(gojq.JQValue).JQValueSlice(sa, sb)
+		}
+		return bin, rest, nil
 	}
 	return nil, "", fmt.Errorf("bad token %q", t)
 }
